@@ -162,6 +162,17 @@ def val_setup():
 
 def mutate(inst, sec, key, how, e=None, model=None):
     inst = copy.deepcopy(inst)
+    if sec == '<top>':
+        # top-level keys without a section validator of their own (only the file-structure schema sees them)
+        if how == 'missing':
+            inst.pop(key, None)
+        elif how == 'number':
+            inst[key] = 1.5
+        elif how == 'list':
+            inst[key] = [1, 2]
+        elif how == 'symbolic':
+            inst[key] = e.real('x', -1.0e7, 1.0e7) if e is not None else float(model['x'])
+        return inst
     if how == 'symbolic':
         inst[sec][key] = e.real('x', -1.0e7, 1.0e7) if e is not None else float(model['x'])
     elif how == 'missing':
@@ -223,7 +234,8 @@ def val_replay(demo, sec, key, how):
                 return False, 'KeyError (missing enum-like key)'
             mine = JS.section_verdicts(inst)
             exp_bad = sum(0 if bool(v) else 1 for v in mine.values())
-            return (got == 0) != (exp_bad == 0) or got != exp_bad, dict(validator_errors=got, sections_failing=[k for k, v in mine.items() if not bool(v)], value=inst[sec].get(key))
+            return (got == 0) != (exp_bad == 0) or got != exp_bad, dict(validator_errors=got, sections_failing=[k for k, v in mine.items() if not bool(v)],
+                                                                        value=(inst.get(key, '<missing>') if sec == '<top>' else inst[sec].get(key)))
         finally:
             import shutil
             shutil.rmtree(tmp, ignore_errors=True)
@@ -272,5 +284,9 @@ def units(tier, seed):
                                    'demo %s with %s.%s spelled %r' % (demo, sec, key, sp), stubs=['jsonschema.validate -> translator'], max_seconds=300))
                 us.append(Unit('val_%d_%s_%s_missing' % (di, sec, key), val_fn(demo, sec, key, 'missing'), val_replay(demo, sec, key, 'missing'), val_setup, F2,
                                'demo %s without %s.%s' % (demo, sec, key), stubs=['jsonschema.validate -> translator'], max_seconds=300))
+    for key in ('version', 'loads'):
+        for how in ('missing', 'number', 'list', 'symbolic'):
+            us.append(Unit('val_top_%s_%s' % (key, how), val_fn(demos[0], '<top>', key, how), val_replay(demos[0], '<top>', key, how), val_setup, F2,
+                           'demo %s with top-level %s %s' % (demos[0], key, how), stubs=['jsonschema.validate -> translator'], max_seconds=300))
     us.append(Unit('twin_reachability', val_fn(demos[0], 'grout', 'conductivity', 'symbolic', twin=True), None, val_setup, F2, 'assert False must be violated', expect_cex=True))
     return us
